@@ -255,6 +255,17 @@ def run_case(inp):
             "translate_internal": lambda q: q.translate_internal(d),
             "copy": lambda q: q.copy(),
             "subset": lambda q: q.subset(slice(None)),
+            # transformations that happen to be the identity are still copies
+            "translate(zeros)": lambda q: q.translate(np.zeros(3)),
+            "translate(zeros (N,3))": lambda q: q.translate(np.zeros((len(q), 3))),
+            "translate_internal(zeros)": lambda q: q.translate_internal(np.zeros(3)),
+            "translate_internal(0.0)": lambda q: q.translate_internal([0.0, 0.0, 0.0]),
+            "rotate_by(identity)": lambda q: q.rotate_by(Rotation.identity()),
+            "rotate_by_rotvec(zeros)": lambda q: q.rotate_by_rotvec(np.zeros(3)),
+            "rotate_by_rotvec_internal(zeros)": lambda q: q.rotate_by_rotvec_internal(np.zeros(3)),
+            "rotate_by_quaternion(identity)": lambda q: q.rotate_by_quaternion(np.array([0.0, 0.0, 0.0, 1.0])),
+            "rotate_by_matrix(identity)": lambda q: q.rotate_by_matrix(np.eye(3)),
+            "linear_transform(identity)": lambda q: q.linear_transform(np.zeros(3), Rotation.identity()),
         }
         inplace = {
             "translate": lambda q: q.translate(d, copy=False),
